@@ -12,10 +12,14 @@
 //	index      @select / @slice for every list over a tiny alphabet and every
 //	           index / length in and out of range (bounded-exhaustive)
 //	gen        @range / @for against the documented sequences (bounded-exhaustive)
+//	history    sequences of templates compiled and evaluated one after the
+//	           other: the value of each is independent of what ran before
+//	           (history_test.go); after-inf: the same around an endless @for
 package c17
 
 import (
 	"fmt"
+	"math"
 	"sort"
 	"strconv"
 	"strings"
@@ -166,6 +170,11 @@ func checkOps(c OpsCase) error {
 		return fmt.Errorf("harness: malformed case")
 	}
 	tpl := c.Tree.top()
+	// every case starts from the same state of the sub-context pool: six
+	// pooled objects that have just bound non-empty {0}/{1} (history_test.go)
+	if err := runPrelude(); err != nil {
+		return err
+	}
 	// reference values first: a case outside the documented domain is not run
 	want := make([]string, len(c.Ctxs))
 	envs := make([]*env, len(c.Ctxs))
@@ -304,6 +313,7 @@ func classifyOps(c OpsCase) (bool, []string) {
 	l.Add(len(c.Ctxs) >= 4, "goroutines>=4")
 	l.Add(depth >= 2, "helper-depth>=2")
 	special := o.Has("empty-element") || o.Has("blank-element") || o.Has("non-ascii-element") || o.Has("for-first-element-empty")
+	l.Add(o.Has("unbound-group-in-sub-expression") && (o.Has("op:@reduce") || o.Has("op:@for")), "unbound-read-with-reduce/for-in-same-tree")
 	twist := o.Has("multi-byte-delim") || o.Has("negative-index") || o.Has("index-out-of-range") || o.Has("named-key-in-sub-expression") || nested || len(c.Ctxs) > 1
 	nt := o.Get("maxlen") >= 3 && special && twist
 	l.Add(o.Get("maxlen") >= 3, "list>=3")
@@ -340,7 +350,7 @@ func genOps(t *rapid.T) OpsCase {
 
 var opsSpec = pbt.Spec[OpsCase]{
 	Property: "C17", Name: "ops",
-	Rule: "typed expression trees (depth<=3 helper nesting, sub-expressions nested to depth 2) over {@ $ @len @split @join @select @slice @map @filter @reduce @in @range @for} + scalar helpers {upper lower len sumi subi multi maxi mini isint isnum eq neq not lt gt lte gte if}, constants from a safe alphabet, data through groups {0}..{3} and keys {L k n ns o s}: lists of 0..14 elements incl. empty/blank/multi-byte/invalid-UTF-8/delimiter-piece elements, 18 delimiters of 1..7 bytes; 1..8 goroutines x 1..40 rounds on one compiled expression (optimised and plain), each goroutine with its own match; oracle = []string interpreter written from the docs, every open reading accepted. Non-trivial: some helper saw a list of >=3 elements AND an empty/blank/non-ASCII element AND (multi-byte delimiter OR negative/out-of-range index OR named key in a sub-expression OR array helper inside a sub-expression OR >1 goroutine); distinct by case JSON",
+	Rule: "typed expression trees (depth<=3 helper nesting, sub-expressions nested to depth 2) over {@ $ @len @split @join @select @slice @map @filter @reduce @in @range @for} + scalar helpers {upper lower len sumi subi multi maxi mini isint isnum eq neq not lt gt lte gte if}, constants from a safe alphabet, data through groups {0}..{3} and keys {L k n ns o s}: lists of 0..14 elements incl. empty/blank/multi-byte/invalid-UTF-8/delimiter-piece elements, 18 delimiters of 1..7 bytes; sub-expressions also read the groups their helper does not bind ({1},{2} in @map/@filter, {2} in @reduce/@for: empty) directly and through {coalesce not if eq len}; @slice/@select indexes and lengths also at the ends of the integer range; every case runs after a fixed prelude that leaves non-empty {0}/{1} in six pooled sub-contexts; 1..8 goroutines x 1..40 rounds on one compiled expression (optimised and plain), each goroutine with its own match; oracle = []string interpreter written from the docs, every open reading accepted. Non-trivial: some helper saw a list of >=3 elements AND an empty/blank/non-ASCII element AND (multi-byte delimiter OR negative/out-of-range index OR named key in a sub-expression OR array helper inside a sub-expression OR >1 goroutine); distinct by case JSON",
 	Budget: pbt.Budget{Quick: 200000, Thorough: 5000000},
 	Gen:    genOps, Check: checkOps, Classify: classifyOps,
 }
@@ -651,7 +661,7 @@ func checkIdx(c IdxCase) error {
 				lo += n
 			}
 			hi := n
-			if c.N >= 0 && lo+c.N < n {
+			if c.N >= 0 && c.N < n-lo { // the elements lo .. lo+N-1 that exist (no addition: N may be MaxInt64)
 				hi = lo + c.N
 			}
 			if got != encode(l[lo:hi]) {
@@ -675,6 +685,8 @@ func checkIdx(c IdxCase) error {
 	o.Label(c.I < 0, "negative-index")
 	o.Label(c.I >= n || c.I < -n, "index-out-of-range")
 	o.Label(c.I < -n, "begin-before-list")
+	o.Label(c.I > 1<<30 || c.I < -(1<<30), "astronomic-index")
+	o.Label(c.N > 1<<30, "astronomic-length")
 	for _, e := range l {
 		o.Label(e == "", "empty-element")
 	}
@@ -686,6 +698,11 @@ func classifyIdx(c IdxCase) (bool, []string) {
 	return o.Get("n") >= 2, append([]string{c.Op}, o.All()...)
 }
 
+var (
+	farIndexes = []int{-(1 << 62), 1 << 62, math.MinInt64, math.MinInt64 + 1, math.MaxInt64}
+	farLengths = []int{1 << 31, 1 << 62, math.MaxInt64 - 1, math.MaxInt64}
+)
+
 func TestIndexExhaustive(t *testing.T) {
 	L, R := 4, 7
 	if pbt.Thorough() {
@@ -693,10 +710,21 @@ func TestIndexExhaustive(t *testing.T) {
 	}
 	sp := pbt.Spec[IdxCase]{
 		Property: "C17", Name: "index",
-		Rule:     fmt.Sprintf("bounded-exhaustive: every list of 0..%d elements over {\"\",a,b} x {@select i, @slice b, @slice b n} x i,b in [-%d,%d] x n in [0,%d]; oracle: in-range = exact element / sub-list (negative begin from the end), out of range = empty, begin before the list = well-formed run from the front, negative @select = from the end or empty; non-trivial: >=2 elements", L, R, R, R),
+		Rule:     fmt.Sprintf("bounded-exhaustive: every list of 0..%d elements over {\"\",a,b} x {@select i, @slice b, @slice b n} x i,b in [-%d,%d] + {-2^62, 2^62, MinInt64, MinInt64+1, MaxInt64} x n in [0,%d] + {2^31, 2^62, MaxInt64-1, MaxInt64}; oracle: in-range = exact element / sub-list (negative begin from the end), out of range = empty, begin before the list = well-formed run from the front, negative @select = from the end or empty; non-trivial: >=2 elements", L, R, R, R),
 		Check:    checkIdx, Classify: classifyIdx,
 	}
 	sym := []string{"", "a", "b"}
+	// indexes and lengths near the list, and at the ends of the integer range
+	// (begin + length must not be computed in a way that wraps around)
+	var begins, lengths []int
+	for i := -R; i <= R; i++ {
+		begins = append(begins, i)
+	}
+	begins = append(begins, farIndexes...)
+	for m := -1; m <= R; m++ {
+		lengths = append(lengths, m)
+	}
+	lengths = append(lengths, farLengths...)
 	pbt.Enum(t, sp, func(yield func(IdxCase) bool) {
 		for n := 0; n <= L; n++ {
 			total := 1
@@ -710,11 +738,11 @@ func TestIndexExhaustive(t *testing.T) {
 					l[i] = pbt.S(sym[x%3])
 					x /= 3
 				}
-				for i := -R; i <= R; i++ {
+				for _, i := range begins {
 					if !yield(IdxCase{L: l, Op: "select", I: i, N: -1, Obs: pbt.NewObs()}) {
 						return
 					}
-					for m := -1; m <= R; m++ {
+					for _, m := range lengths {
 						if !yield(IdxCase{L: l, Op: "slice", I: i, N: m, Obs: pbt.NewObs()}) {
 							return
 						}
